@@ -100,6 +100,14 @@ func (c16) Gen(tier string, seed int64, emit func([]Ev)) {
 			emit([]Ev{{"op": "syncgap", "pre": B(pre), "fill": 0xff, "n": g, "suf": []int{0x47, 0x01}, "stream": []int{}, "reader": "bufio4096"}})
 		}
 	}
+	// more rejected candidates than 16 bits can count: a run of sync bytes (each one a candidate with
+	// adaptation_field_control 00), then the header
+	for _, g := range []int{65536 + r.Intn(5), 70001} {
+		st := bytes.Repeat([]byte{0x47}, g)
+		st = append(st, 0x47, 0x01, 0x00, 0x10|byte(r.Intn(16)))
+		st = append(st, bytes.Repeat([]byte{0x48}, 184+r.Intn(50))...)
+		emit([]Ev{{"op": "sync", "stream": B(st), "reader": []string{"bufio4096", "slice"}[g%2]}})
+	}
 	for k, g := range fars {
 		st := bytes.Repeat([]byte{[]byte{0xff, 0x00, 0x48}[k%3]}, g)
 		for q := 0; q < 20; q++ {
